@@ -7,6 +7,7 @@ MCArgs == { A("ident", <<"a">>), A("unquoted", <<"a", "\\", Q>>), A("unquoted", 
             A("quoted", <<Q, "a", "\\", Q, Q>>), A("quoted", <<Q, "a", Q>>), A("quoted", <<Q, "\\", Q, Q>>),
             A("varref", <<"$", "o", "a", "o">>), A("bracket", <<"[", "[", "a", "]", "]">>), A("bracket", <<"[", "[", Q, "a", Q, "]", "]">>),
             A("unquoted", <<"\\", Q, "a", "\\", Q>>), A("quoted", <<Q, "e", Q>>),
+            A("quoted", <<Q, "a", " ", " ", "\t", "a", Q>>),
             A("quoted", <<Q, "a", "\\", "\\", Q>>), A("quoted", <<Q, "\\", "\\", Q>>) }
 BothKinds == {"set", "option"}
 NoDev == {}
